@@ -1,3 +1,4 @@
+import os
 """Shared by C17 and C10: flatten recorded pc-pair events into the uniform records Trace_Lifecycle reads."""
 import json
 
@@ -236,3 +237,16 @@ def stack_pass(ck, vlib, runs, mode_of, tag):
         for b in v["viol"]:
             ck.drift.append({"stack": list(b), "scenario_id": v["id"]})
     return n
+
+
+_LOCKS = []
+
+
+def exclusive(vlib, pid):
+    """Two runs of the same check on the same tree share one output directory (recordings, verdict sinks): the
+    second one waits for the first (advisory file lock, released when the process ends). Taken before the check's
+    clock starts."""
+    import fcntl
+    f = open(os.path.join(vlib.outdir(pid), ".lock"), "w")
+    fcntl.flock(f, fcntl.LOCK_EX)
+    _LOCKS.append(f)
